@@ -8,7 +8,7 @@ cd /repo || exit 2
 if ! git diff --quiet; then echo "refusing: /repo has uncommitted changes"; exit 2; fi
 git apply "$patch" || { echo "patch does not apply"; exit 2; }
 trap 'git -C /repo checkout -- . ; git -C /repo clean -fdq src tests 2>/dev/null' EXIT
-cd /verif
+cd "${VERIF_DIR:-/verif}"
 exitcode=0
 for id in "$@"; do
   out=$(VERIF_EVIDENCE_DIR=/tmp/ev-trial ./check "$id" --tier quick 2>&1); code=$?
